@@ -1457,6 +1457,7 @@ ismode_w(const wchar_t *start, const wchar_t *end, int *permset)
 		case L'-':
 			break;
 		default:
+			*permset = 0;
 			return (0);
 		}
 	}
@@ -1954,6 +1955,7 @@ ismode(const char *start, const char *end, int *permset)
 		case '-':
 			break;
 		default:
+			*permset = 0;
 			return (0);
 		}
 	}
